@@ -68,6 +68,14 @@ func corrC07(c *corrCtx) {
 			}
 		}
 	}
+	// one length field at a time set to an extreme or off-by-one value
+	for _, s := range fieldFiles(r, c.thorough()) {
+		for _, ld := range []string{s.format, "auto"} {
+			sched := fixedScheds[r.intn(len(fixedScheds))]
+			c07Case(c, "trunc/"+classOf(s.name)+"/len-field", ld, s.data, sched, false, r.intn(4) == 0)
+			c07Case(c, "fault/"+classOf(s.name)+"/len-field", ld, s.data, sched, true, r.intn(4) == 0)
+		}
+	}
 	c07Huge(c)
 	// the same files (whole and truncated) through sources of every dynamic type
 	var typed []seedFile
@@ -272,6 +280,8 @@ func corrC08(c *corrCtx) {
 	// ICC carriers ending at every offset around the 4096-byte buffer boundaries
 	al, _ := alignedFiles(r, alignTargets(c.thorough()))
 	inputs = append(inputs, al...)
+	// one length field at a time set to an extreme or off-by-one value
+	inputs = append(inputs, fieldFiles(r, c.thorough())...)
 	for _, s := range inputs {
 		lds := []string{"auto"}
 		if s.format != "none" {
@@ -375,6 +385,7 @@ func corrC19(c *corrCtx) {
 	inputs = append(inputs, seedFiles(r, false)...)
 	inputs = append(inputs, junkFiles(r)...)
 	inputs = append(inputs, realFiles()...)
+	inputs = append(inputs, fieldFiles(r, c.thorough())...)
 	typedSourceCases(c, "C19", inputs)
 	// ... and the same files cut exactly where the needed structures end (and one byte either side)
 	var cutFiles []seedFile
